@@ -14,7 +14,10 @@ import (
 	"golang.org/x/tools/go/ssa"
 )
 
-const verifDir = "/verif"
+var verifDir = "/verif"
+
+// outDir: where evidence and replay files go (default: verifDir; the self-test redirects it)
+var outDir = "/verif"
 
 var loadPatterns = []string{
 	"./api/...", "./bridge/core/...", "./bridge/gitlab/...", "./cache/...", "./commands/...", "./entities/...", "./entity/...",
@@ -124,6 +127,7 @@ func main() {
 	dump := fs.Bool("dump", false, "keep/dump SMT files")
 	timeout := fs.Int("timeout", 0, "per-query timeout in seconds")
 	verbose := fs.Bool("v", false, "verbose")
+	out := fs.String("out", "", "directory for evidence/ and replay/ (default /verif)")
 	var pos []string
 	args := os.Args[2:]
 	for len(args) > 0 && !strings.HasPrefix(args[0], "-") {
@@ -132,6 +136,9 @@ func main() {
 	}
 	fs.Parse(args)
 	pos = append(pos, fs.Args()...)
+	if *out != "" {
+		outDir = *out
+	}
 	if t := os.Getenv("VERIF_TIER"); t != "" && cmd == "check" {
 		*tier = t
 	}
